@@ -18,6 +18,7 @@ package main
 
 import (
 	"encoding/binary"
+	"encoding/json"
 	"fmt"
 	"io"
 	"log"
@@ -66,6 +67,7 @@ type entity struct {
 	drafts int      // metrics: number of tags_draft entries (0, or 2..8)
 	ns     int      // 0 = not chosen yet, 1 = namespace field unset, 2.. = namespace id + 2
 	past   [][2]int // earlier (data, drafts) states, for reverting edits
+	mark   int      // metrics: which description mark the entity's descriptions carry (0 = none)
 	conts  []int    // content number of every source version of this entity
 }
 
@@ -94,6 +96,7 @@ type world struct {
 	dropByKey    map[key]bool
 	pendingPanic string
 	pendingViol  [][2]string // oracle lines found while interning (printed by announce, inside the case)
+	cfPending    []int       // contents announced, compact form still to be compared
 }
 
 func (w *world) nt(tag string) {
@@ -233,8 +236,144 @@ func (w *world) announce(upto *int) {
 			w.h.Viol("table-assumption-violated", "content %d (type %d id %d): transport/compaction changed the entity, or discard is not per entity, or size 0", c.k, e.EventType, e.Id)
 		}
 		w.h.Stat("oracle.tabok", 1)
+		w.cfPending = append(w.cfPending, c.k)
 		*upto++
 	}
+	// the compact form is MODELLED (SH.Model.CompactMetric): for every parseable metric content the fields handed to
+	// MakeCompactMetric go to the model, the fields of the real compact event's Data are the observation
+	for _, k := range w.cfPending {
+		c := w.contents[k]
+		if c.ev.EventType != format.MetricEvent || !c.ok || c.c < 0 {
+			continue
+		}
+		pre, err := metajournal.MetricMetaFromEvent(c.ev)
+		if err != nil {
+			continue
+		}
+		ce := w.contents[c.c].ev
+		w.h.Op("cf %d %s %s head=%s", c.k, hx(c.ev.Name), fieldsOf(pre).render(), headOf(c.ev))
+		if rf, err := rawFields(ce.Data); err != nil {
+			w.h.Obs("cf unparseable")
+		} else {
+			w.h.Obs("cf %s head=%s", rf.render(), headOf(ce))
+		}
+		w.h.Stat("cf.checked", 1)
+		if refCompact(c.ev.Name, fieldsOf(pre)).desc != "" {
+			w.h.Stat("cf.description-kept", 1)
+		}
+	}
+	w.cfPending = nil
+}
+
+// ---------------------------------------------------------------- compact form of metrics: fields, reference
+
+type mtag struct {
+	name, desc, raw string
+	ncomm           int
+}
+type mdraft struct{ key, name, desc, raw string }
+
+// mfields = the JSON-visible fields of a MetricMetaValue that MakeCompactMetric reads or writes
+type mfields struct {
+	desc, kind                       string
+	weight                           float64
+	res                              int
+	dis                              bool
+	stn, std, pkt                    string
+	pkf                              uint32
+	skipMax, skipMin, skipSq, pkOnly bool
+	mtype                            string
+	tags                             []mtag
+	drafts                           []mdraft
+	mid, ns                          int32
+	vname                            string
+	ver                              int64
+}
+
+func fieldsOf(v *format.MetricMetaValue) mfields {
+	f := mfields{desc: v.Description, kind: v.Kind, weight: v.Weight, res: v.Resolution, dis: v.Disable, stn: v.StringTopName,
+		std: v.StringTopDescription, pkt: v.PreKeyTagID, pkf: v.PreKeyFrom, skipMax: v.SkipMaxHost, skipMin: v.SkipMinHost,
+		skipSq: v.SkipSumSquare, pkOnly: v.PreKeyOnly, mtype: v.MetricType, mid: v.MetricID, ns: v.NamespaceID, vname: v.Name, ver: v.Version}
+	for _, t := range v.Tags {
+		f.tags = append(f.tags, mtag{t.Name, t.Description, t.RawKind, len(t.ValueComments)})
+	}
+	for k, t := range v.TagsDraft {
+		f.drafts = append(f.drafts, mdraft{k, t.Name, t.Description, t.RawKind})
+	}
+	sort.Slice(f.drafts, func(i, j int) bool { return f.drafts[i].key < f.drafts[j].key })
+	return f
+}
+
+func hx(s string) string { return verifx.Hex([]byte(s)) }
+
+func (f mfields) render() string {
+	w := fmt.Sprintf("x%g", f.weight)
+	if f.weight == float64(int64(f.weight)) && f.weight >= 0 {
+		w = fmt.Sprint(int64(f.weight))
+	}
+	var ts, ds []string
+	for _, t := range f.tags {
+		ts = append(ts, fmt.Sprintf("%s:%s:%s:%d", hx(t.name), hx(t.desc), hx(t.raw), t.ncomm))
+	}
+	for _, d := range f.drafts {
+		ds = append(ds, fmt.Sprintf("%s:%s:%s:%s", hx(d.key), hx(d.name), hx(d.desc), hx(d.raw)))
+	}
+	return fmt.Sprintf("%s %s %s %d %d %s %s %s %d %d%d%d%d %s %s %s ids=%d:%d:%s:%d", hx(f.desc), hx(f.kind), w, f.res, b2i(f.dis), hx(f.stn), hx(f.std),
+		hx(f.pkt), f.pkf, b2i(f.skipMax), b2i(f.skipMin), b2i(f.skipSq), b2i(f.pkOnly), hx(f.mtype), join(ts), join(ds), f.mid, f.ns, hx(f.vname), f.ver)
+}
+
+// rawFields: the fields as they are written in an event's Data (plain JSON decoding, no RestoreCachedInfo)
+func rawFields(data string) (mfields, error) {
+	var v format.MetricMetaValue
+	if err := json.Unmarshal([]byte(data), &v); err != nil {
+		return mfields{}, err
+	}
+	return fieldsOf(&v), nil
+}
+
+// refCompact is the harness' OWN statement of the compact form of a metric, written from the documented rule (comments
+// of MakeCompactMetric / keepCompactMetricDescription / format.go), independent of the code under test:
+// the compact journal keeps what agents need (tag names and raw kinds, draft tag keys, kind if percentiles, weight,
+// resolution, disable, shard settings) and drops texts; the description survives for the remote-config / dump metrics
+// (it is their payload) and when it carries one of the explicit marks.
+func refCompact(evName string, f mfields) mfields {
+	g := f
+	special := evName == "statshouse_agent_remote_config" || evName == "statshouse_aggregator_remote_config" ||
+		evName == "statshouse_api_remote_config" || evName == "statshouse_journal_dump"
+	marked := strings.Contains(f.desc, "__round_sample_factors") || strings.Contains(f.desc, "__whales_off") || strings.Contains(f.desc, "statshouse$")
+	if !special && !marked {
+		g.desc = ""
+	}
+	g.mid, g.ns, g.vname, g.ver = 0, 0, "", 0
+	g.tags = nil
+	last := 0
+	for i, t := range f.tags {
+		if t.raw != "" || t.name != "" {
+			last = i + 1
+		}
+	}
+	for _, t := range f.tags[:last] {
+		g.tags = append(g.tags, mtag{t.name, "", t.raw, 0})
+	}
+	g.drafts = nil
+	for _, d := range f.drafts {
+		g.drafts = append(g.drafts, mdraft{d.key, "", d.desc, d.raw})
+	}
+	if f.kind != "value_p" && f.kind != "mixed_p" {
+		g.kind = ""
+	}
+	if f.weight == 1 {
+		g.weight = 0
+	}
+	if f.res <= 1 {
+		g.res = 0
+	}
+	g.std, g.pkt, g.pkf, g.skipMax, g.skipMin, g.skipSq, g.pkOnly, g.mtype = "", "", 0, false, false, false, false, ""
+	return g
+}
+
+func headOf(e tlmetadata.Event) string {
+	return fmt.Sprintf("%d:%d:%d:%d", e.FieldMask, e.Unused, e.UpdateTime, b2i(e.Metadata != ""))
 }
 
 func b2i(b bool) int {
@@ -482,6 +621,17 @@ func (w *world) synced(ri int) bool {
 	return true
 }
 
+// chainCompact: some journal between the source and replica ri (ri included) is compact
+func (w *world) chainCompact(ri int) bool {
+	for ri != 0 {
+		if w.reps[ri].compact {
+			return true
+		}
+		ri = w.reps[ri].up
+	}
+	return false
+}
+
 // content the chain stores in replica ri for source content k (-1: nothing is stored)
 func (w *world) stored(ri int, k int) int {
 	if ri == 0 {
@@ -578,6 +728,19 @@ func (w *world) oracleSynced(op string) {
 				}
 				w.h.Viol(sig, "replica %d (synced) after %s: entity type=%d id=%d has name %q v%d, source has %q v%d", ri, op, k.typ, k.id, got.Name, got.Version, ent.name, ent.ver)
 				continue
+			}
+			// independent of the code's own compaction: behind a compact journal a metric is held in the compact form of the
+			// source's latest version as the harness' reference defines it (incl. the description of remote-config metrics)
+			if k.typ == format.MetricEvent && ent.ok && w.chainCompact(ri) && !ahead[ri][k] {
+				src := w.contents[ent.k].ev
+				src.Version = ent.ver
+				if pre, err := metajournal.MetricMetaFromEvent(src); err == nil {
+					want := refCompact(src.Name, fieldsOf(pre)).render()
+					if rf, err := rawFields(got.Data); err != nil || rf.render() != want {
+						w.h.Viol("replica-compact-form-differs", "replica %d (synced) after %s: metric %d %q v%d holds Data %q, compact form of the source's latest version v%d is %s", ri, op, k.id, got.Name, got.Version, clip(got.Data), ent.ver, want)
+					}
+					w.h.Stat("oracle.compact-form", 1)
+				}
 			}
 			// the in-memory index shows the same version and name
 			switch k.typ {
@@ -810,7 +973,8 @@ func (w *world) opRestart(ri int, keep int) {
 
 // ---------------------------------------------------------------- generator of source edits
 
-var metricNames = []string{"a", "ab", "abc", "abd", "ab_x", "b", "ba", "bab", "c", "ca", "abcd", "b_1"}
+// the four names RemoteConfigMetric() recognises keep their description (it is their payload) in compact journals
+var metricNames = []string{format.StatshouseAgentRemoteConfigMetric, format.StatshouseAggregatorRemoteConfigMetric, format.StatshouseAPIRemoteConfig, format.StatshouseJournalDump, "a", "ab", "abc", "abd", "ab_x", "b", "ba", "bab", "c", "ca", "abcd", "b_1"}
 var groupNames = []string{"a", "ab", "abc", "b", "ba", "c", "ab_", "abcd"}
 var nsNames = []string{"n1", "n2", "n3", "n4", "n5"}
 var otherNames = []string{"d1", "d2", "d3", "p1", "p2"}
@@ -878,8 +1042,8 @@ func (w *world) makeData(ent *entity) string {
 	switch ent.key.typ {
 	case format.MetricEvent:
 		// description-only changes are invisible to compaction; tag / kind / resolution changes are visible
-		desc := fmt.Sprintf("d%d", v)
-		tags := []string{`{"name":"env"}`, `{"name":"env"},{"name":"k1","description":"c"}`, `{},{"name":"k2","raw":true}`, `{"name":"env"},{"name":""},{"name":""}`}[(v/2)%4]
+		desc := []string{"", "statshouse$ ", "x __whales_off ", "__round_sample_factors=1 "}[ent.mark] + fmt.Sprintf("d%d", v)
+		tags := []string{`{"name":"env"}`, `{"name":"env"},{"name":"k1","description":"c","value_comments":{"1":"one","2":"two"}}`, `{},{"name":"k2","raw":true}`, `{"name":"env"},{"name":""},{"name":""}`}[(v/2)%4]
 		kind := []string{"counter", "value", "value_p", "mixed_p"}[(v/3)%4]
 		res := []int{1, 1, 5, 15}[(v/5)%4]
 		// tags_draft is a Go map: a compaction that does not serialise it in a fixed order is not a function of the event
@@ -891,7 +1055,12 @@ func (w *world) makeData(ent *entity) string {
 			}
 			drafts = fmt.Sprintf(`,"tags_draft":{%s}`, strings.Join(ds, ","))
 		}
-		return fmt.Sprintf(`{"description":%q,"tags":[%s]%s,"kind":%q,"resolution":%d,"weight":%d,"disable":%v}`, desc+w.pad(), tags, drafts, kind, res, 1+(v/7)%2, ent.dis)
+		extra := fmt.Sprintf(`,"string_top_description":%q,"skip_max_host":%v,"skip_sum_square":%v,"metric_type":%q`,
+			[]string{"", "top"}[v%2], v%3 == 0, v%4 == 1, []string{"", "byte", "second"}[(v/2)%3])
+		if v%5 == 2 {
+			extra += `,"pre_key_tag_id":"1","pre_key_from":77,"string_top_name":"stop"`
+		}
+		return fmt.Sprintf(`{"description":%q,"tags":[%s]%s,"kind":%q,"resolution":%d,"weight":%d,"disable":%v%s,"junk":%q}`, desc, tags, drafts, kind, res, 1+(v/7)%2, ent.dis, extra, w.pad())
 	case format.MetricsGroupEvent:
 		return fmt.Sprintf(`{"weight":%d,"disable":%v,"junk":%q}`, 1+v%3, ent.dis, w.pad())
 	case format.NamespaceEvent:
@@ -980,6 +1149,9 @@ func (w *world) create(upto *int) bool {
 		return false
 	}
 	ent := &entity{key: key{typ, id}, name: name}
+	if typ == format.MetricEvent {
+		ent.mark = w.r.Pick(9, 1, 1, 1)
+	}
 	if typ == format.MetricEvent && w.r.Chance(2, 5) {
 		ent.drafts = w.r.Range(2, 8)
 		w.h.Stat("src.metric.with-drafts", 1)
@@ -1450,6 +1622,10 @@ func genLean() {
 	}
 	fmt.Fprintf(&b, "/-- groups present in a fresh MetricsStorage: (id, name, disable), ascending id -/\ndef builtinGroups : List (Int × String × Bool) := [%s]\n", strings.Join(gs, ", "))
 	fmt.Fprintf(&b, "/-- namespaces present in a fresh MetricsStorage: (id, name), ascending id -/\ndef builtinNamespaces : List (Int × String) := [%s]\n", strings.Join(ns, ", "))
+	fmt.Fprintf(&b, "/-- RemoteConfigMetric: names whose description survives compaction -/\ndef remoteConfigNames : List String := [%q, %q, %q, %q]\n",
+		format.StatshouseAgentRemoteConfigMetric, format.StatshouseJournalDump, format.StatshouseAggregatorRemoteConfigMetric, format.StatshouseAPIRemoteConfig)
+	fmt.Fprintf(&b, "/-- keepCompactMetricDescription: description marks (two literals of format.go + ToggleDescriptionMark) -/\ndef keepDescMarks : List String := [\"__round_sample_factors\", \"__whales_off\", %q]\n", format.ToggleDescriptionMark)
+	fmt.Fprintf(&b, "def percentileKinds : List String := [%q, %q]\n", format.MetricKindValuePercentiles, format.MetricKindMixedPercentiles)
 	b.WriteString("end SH.Gen.C20\n")
 	fmt.Print(b.String())
 }
